@@ -68,7 +68,9 @@ def spec():
                                                                                             _p("day", "path", True, {"type": "string", "format": "date"}),
                                                                                             _p("since", "query", False, {"type": "string", "format": "date-time"})],
                                                 "responses": {"200": ok}}},
-        "/multi": {"post": {"operationId": "sendMulti", "parameters": [_p("mode", "query"), _p("X-M", "header")],
+        "/multi/{takenAt}/{n}": {"post": {"operationId": "sendMulti", "parameters": [_p("mode", "query"), _p("X-M", "header"), _p("sid", "cookie"),
+                                                                                    _p("takenAt", "path", True, {"type": "string", "format": "date-time"}),
+                                                                                    _p("n", "path", True, {"type": "integer"})],
                             "requestBody": {"required": True, "content": {"application/json": {"schema": {"$ref": "#/components/schemas/Item"}},
                                                                           "application/x-www-form-urlencoded": {"schema": {"type": "object"}}}},
                             "responses": {"200": ok}}},
@@ -96,10 +98,12 @@ OPS = {
     "send_xml": dict(method="PUT", path="/xml", params=[], body=("bytes_content", "data", "bytes")),
     "get_snapshot": dict(method="GET", path="/snapshots/{takenAt}/{day}", params=[
         ("taken_at", "takenAt", "path", True, "datetime"), ("day", "day", "path", True, "date"), ("since", "since", "query", False, "datetime")], body=None),
-    "send_multi/json": dict(method="POST", path="/multi", py="send_multi", params=[("mode", "mode", "query", None, "str"), ("x_m", "X-M", "header", None, "str")],
-                            body=("body", "json", "item")),
-    "send_multi/form": dict(method="POST", path="/multi", py="send_multi", params=[("mode", "mode", "query", None, "str"), ("x_m", "X-M", "header", None, "str")],
-                            body=("data", "data", "strdict")),
+    "send_multi/json": dict(method="POST", path="/multi/{takenAt}/{n}", py="send_multi", params=[
+        ("taken_at", "takenAt", "path", True, "datetime"), ("n", "n", "path", True, "int"), ("mode", "mode", "query", None, "str"), ("x_m", "X-M", "header", None, "str"),
+        ("sid", "sid", "cookie", None, "str")], body=("body", "json", "item")),
+    "send_multi/form": dict(method="POST", path="/multi/{takenAt}/{n}", py="send_multi", params=[
+        ("taken_at", "takenAt", "path", True, "datetime"), ("n", "n", "path", True, "int"), ("mode", "mode", "query", None, "str"), ("x_m", "X-M", "header", None, "str"),
+        ("sid", "sid", "cookie", None, "str")], body=("data", "data", "strdict")),
 }
 
 
